@@ -143,6 +143,9 @@ def run(ctx):
         for site, detail, rep in divs:
             ctx.diverge(site, rep, detail=detail)
     ctx.traces += len(hcases)
+    # event probabilities derived from ensemble members: a member ON the threshold belongs to the event "at or below"
+    from harness.checks import c08
+    c08._run(ctx, "ens", "small", limit=(400 if ctx.tier == "quick" else None))
     par.clean_workdirs()
     if ctx.tier == "thorough":
         _apalache(ctx)
